@@ -21,7 +21,36 @@ func cmdC08(r *RNG, n int, e *Emitter, args []string) {
 	for i := 0; i < n; i++ {
 		G := []int64{4, 6, 10, 20, 100, 1000}[r.Intn(6)]
 		var pat, path clip.Path64
-		switch r.Intn(8) {
+		switch r.Intn(10) {
+		case 9: // a SHORT rasterised run followed by a long jump across it, small pattern: few enough quads to certify
+			pat = clip.Path64{{X: 0, Y: 0}, {X: r.Range(4, 12), Y: r.Range(0, 3)}, {X: r.Range(0, 3), Y: r.Range(4, 12)}}
+			d := [][2]int64{{1, 0}, {1, 1}, {0, 1}, {-1, 1}}[r.Intn(4)]
+			x, y := r.Range(0, 20), r.Range(0, 20)
+			for k, nk := 0, 5+r.Intn(3); k < nk; k++ {
+				path = append(path, clip.Point64{X: x, Y: y})
+				x, y = x+d[0], y+d[1]
+			}
+			// the jump leaves perpendicular to the run
+			j := r.Range(30, 120)
+			path = append(path, clip.Point64{X: x - d[1]*j, Y: y + d[0]*j})
+		case 8: // a rasterised path: runs of unit steps (and a few longer ones)
+			pat = genPolyN(r, []string{"convex", "rect", "random"}[r.Intn(3)], G, 5)
+			x, y := r.Range(0, G), r.Range(0, G)
+			for seg, nseg := 0, 1+r.Intn(3); seg < nseg; seg++ {
+				// a rasterised straight run: unit steps in one of the 8 lattice directions, with some jitter
+				d := [][2]int64{{1, 0}, {1, 1}, {0, 1}, {-1, 1}, {1, -1}, {-1, 0}, {0, -1}, {-1, -1}}[r.Intn(8)]
+				for k, nk := 0, 8+r.Intn(70); k < nk; k++ {
+					path = append(path, clip.Point64{X: x, Y: y})
+					x, y = x+d[0], y+d[1]
+					if r.Intn(10) == 0 {
+						x += r.Range(-1, 1)
+					}
+				}
+				if r.Bool() { // a long jump between runs
+					x, y = x+r.Range(-3*G, 3*G), y+r.Range(2, 3*G)
+				}
+			}
+			path = append(path, clip.Point64{X: x, Y: y})
 		case 0:
 			pat = genPolyN(r, "random", G, 4)
 			path = clip.Path64{} // empty path
